@@ -19,9 +19,11 @@ theorem crossCore_N1 (c : CrossCtx bits ab rb rs lsh H a) (Ln p g take pad resSt
             else (carryOnlyRun bits ab lsh (a.drop 0)).getD 0) = some out) :
     out.length = rs ∧ (∀ d ∈ out, |d| ≤ 2 ^ rb - 1) ∧
     TorusNear (valI rb out) (rb * rs) (valI ab a) (ab * a.length + p) ∧
-    (a = [] → g = 0 → TorusEq (valI rb out) (rb * rs) (valI ab a) (ab * a.length + p)) := by
+    (a = [] → TorusEq (valI rb out) (rb * rs) (valI ab a) (ab * a.length + p)) := by
   obtain ⟨hcD, dD, hdD, hdD0, hva⟩ := cross_discard c 0 (Nat.zero_le _)
-  generalize (carryOnlyRun bits ab lsh (a.drop 0)).getD 0 = cD at h hcD hva
+  have hcz : a = [] → (carryOnlyRun bits ab lsh (a.drop 0)).getD 0 = 0 := by
+    intro ha; subst ha; rfl
+  generalize (carryOnlyRun bits ab lsh (a.drop 0)).getD 0 = cD at h hcD hva hcz
   obtain ⟨ρ, hρe, hρ, hρ0, hc0⟩ := cross_gap_carry c g hcD
   generalize (if g ≠ 0 then (if g < bits then (if bits = 64 then mulPow2NegRef cD g else mulPow2Neg128 cD g) else 0)
             else cD) = c0 at h hρe hc0
@@ -38,8 +40,13 @@ theorem crossCore_N1 (c : CrossCtx bits ab rb rs lsh H a) (Ln p g take pad resSt
   have hE : |ρ * 2 ^ (ab * a.length) + dD| * 2 ^ (rb * rs) ≤ 2 ^ (ab * a.length + Ln * ab) := by
     rw [eg]; exact mul_le_mul_of_nonneg_right hEb (le_of_lt (two_pow_pos _))
   obtain ⟨hn, hx⟩ := neg_final_arith (valI rb out) (valI ab a) q _ ab rb rs a.length lsh Ln p hp hrel hE
-  refine ⟨hlen, hlims, hn, fun ha hg0 => hx ?_⟩
-  rw [hρ0 hg0, hdD0 (by rw [ha]; rfl)]; ring
+  refine ⟨hlen, hlims, hn, fun ha => hx ?_⟩
+  have hc0' := hcz ha
+  subst hc0'
+  have hρz : ρ = 0 :=
+    cross_rho_zero (take := g) (pinit := 0) (K := c0) (T := 0) (ρ := ρ) (by simp only [pow_zero, one_mul]; linarith) rfl hρ
+      (dvd_zero _)
+  rw [hρz, hdD0 (by rw [ha]; rfl)]; ring
 
 /-- class (N2) after the clamps: overlap; `m = min(R, a_bits)` bits of `a` are used, `R = rb·rs − Ln·ab` -/
 theorem crossCore_N2_value (c : CrossCtx bits ab rb rs lsh H a) (Ln p m Sa Sr take pad resEnd : Nat)
@@ -53,8 +60,9 @@ theorem crossCore_N2_value (c : CrossCtx bits ab rb rs lsh H a) (Ln p m Sa Sr ta
           ((carryOnlyRun bits ab lsh (a.drop Sa)).getD 0) = some out) :
     out.length = rs ∧ (∀ d ∈ out, |d| ≤ 2 ^ rb - 1) ∧
     TorusNear (valI rb out) (rb * rs) (valI ab a) (ab * a.length + p) ∧
-    (ab * a.length + Ln * ab ≤ rb * rs → TorusEq (valI rb out) (rb * rs) (valI ab a) (ab * a.length + p)) := by
+    (ab * a.length + Ln * ab ≤ rb * rs + lsh → TorusEq (valI rb out) (rb * rs) (valI ab a) (ab * a.length + p)) := by
   have hab1 : 1 ≤ ab := by have := c.hlsh; omega
+  have hlsh := c.hlsh
   have hcomm : rb * rs = rs * rb := Nat.mul_comm _ _
   have hcomm2 : ab * a.length = a.length * ab := Nat.mul_comm _ _
   have hRe : (rb * rs - Ln * ab) + Ln * ab = rb * rs := Nat.sub_add_cancel (by omega)
@@ -79,13 +87,24 @@ theorem crossCore_N2_value (c : CrossCtx bits ab rb rs lsh H a) (Ln p m Sa Sr ta
       have hme : m = R := by omega
       have : rs * rb - (Ln * ab + m) = 0 := by omega
       omega
-  have hexf : ab * a.length + Ln * ab ≤ rb * rs → a.length - Sa = 0 ∧ take = 0 := by
+  have hexf : ab * a.length + Ln * ab ≤ rb * rs + lsh →
+      a.length - Sa = 0 ∧ (take = 0 ∨ (rb * (rs - Sr) + pad = 0 ∧ take ≤ lsh)) := by
     intro hle
-    have hme : m = a.length * ab := by omega
-    have ht0 : take = 0 := by rw [htake, hme]; simp
-    have : Sa * ab = a.length * ab := by omega
-    have : Sa = a.length := Nat.eq_of_mul_eq_mul_right (by omega) this
-    exact ⟨by omega, ht0⟩
+    rcases Nat.le_total (a.length * ab) R with hc | hc
+    · have hme : m = a.length * ab := by omega
+      have ht0 : take = 0 := by rw [htake, hme]; simp
+      have : Sa * ab = a.length * ab := by omega
+      have : Sa = a.length := Nat.eq_of_mul_eq_mul_right (by omega) this
+      exact ⟨by omega, Or.inl ht0⟩
+    · have hme : m = R := by omega
+      have hlt : a.length * ab - m < ab := by omega
+      have hte : take = a.length * ab - m := by rw [htake]; exact Nat.mod_eq_of_lt hlt
+      have : Sa * ab = a.length * ab := by omega
+      have : Sa = a.length := Nat.eq_of_mul_eq_mul_right (by omega) this
+      exact ⟨by omega, Or.inr ⟨by omega, by omega⟩⟩
+  have hcD0 : a.length - Sa = 0 → (carryOnlyRun bits ab lsh (a.drop Sa)).getD 0 = 0 := by
+    intro h0
+    rw [List.drop_eq_nil_of_le (by omega)]; rfl
   have hq : crossQ (rb * (rs - Sr) + pad) ab take Sa = R := by unfold crossQ; omega
   have hre : resEnd = (rb * rs - R) / rb := by
     rw [hresEnd]; congr 1; omega
@@ -97,7 +116,7 @@ theorem crossCore_N2_value (c : CrossCtx bits ab rb rs lsh H a) (Ln p m Sa Sr ta
     have : 1 ≤ Ln * ab := Nat.mul_pos (by omega) (by omega)
     omega
   obtain ⟨hcD, dD, hdD, hdD0, hva⟩ := cross_discard c Sa ha2
-  generalize (carryOnlyRun bits ab lsh (a.drop Sa)).getD 0 = cD at h hcD hva
+  generalize (carryOnlyRun bits ab lsh (a.drop Sa)).getD 0 = cD at h hcD hva hcD0
   obtain ⟨hlen, hlims, K, ρ, q, hK, hρ, hρ0, hZ⟩ := crossCore_N2 c Sa Sr take pad resEnd R cD
     ha1 ha2 ha5 hr5 hboth hr1 hr2 hcD hq hRlt hre h
   have hEb := cross_err_bound (two_pow_pos (ab * (a.length - Sa))) hρ hρ0 hdD
@@ -105,8 +124,16 @@ theorem crossCore_N2_value (c : CrossCtx bits ab rb rs lsh H a) (Ln p m Sa Sr ta
     Sa (a.length - Sa) take (rb * (rs - Sr) + pad) a.length hP1 hLn' hP3 hcase hva (fun h0 => hdD0 (hP4 h0)) hK hρ0 hEb hZ
   obtain ⟨hn, hx⟩ := neg_final_arith (valI rb out) (valI ab a) q E ab rb rs a.length lsh Ln p hp hrel hE
   refine ⟨hlen, hlims, hn, fun hle => hx ?_⟩
-  obtain ⟨hd0, ht0⟩ := hexf hle
-  exact hE0 hd0 ht0
+  obtain ⟨hd0, hc⟩ := hexf hle
+  apply hE0 hd0
+  rcases hc with ht0 | ⟨hp0, htl⟩
+  · exact hρ0 ht0
+  · have hcz := hcD0 hd0
+    subst hcz
+    have hdvd : (2 : Int) ^ take ∣ crossTop ab lsh a Sa 0 := by
+      unfold crossTop; rw [zero_add]
+      exact Dvd.dvd.mul_right (pow_dvd_pow 2 htl) _
+    exact cross_rho_zero hK hp0 hρ hdvd
 
 end
 
@@ -123,11 +150,13 @@ theorem normalizeCrossCoef_value_N (c : CrossCtx bits ab rb rs lsh H a) (off : I
     (h : normalizeCrossCoef bits rb rs off ab a = some out) :
     out.length = rs ∧ (∀ d ∈ out, |d| ≤ 2 ^ rb - 1) ∧
     TorusNear (valI rb out) (rb * rs) (valI ab a) (ab * a.length + p) ∧
-    (ab * a.length + Ln * ab ≤ rb * rs → TorusEq (valI rb out) (rb * rs) (valI ab a) (ab * a.length + p)) := by
+    (ab * a.length + Ln * ab ≤ rb * rs + lsh → TorusEq (valI rb out) (rb * rs) (valI ab a) (ab * a.length + p)) := by
   have hab1 : 1 ≤ ab := by have := c.hlsh; omega
+  have hlsh := c.hlsh
   have hrb1 := c.hrb1
   have hRb := two_pow_pos rb
   have hLnab : 1 ≤ Ln * ab := Nat.mul_pos (by omega) (by omega)
+  have hLab : ab ≤ Ln * ab := Nat.le_mul_of_pos_left ab (by omega)
   rw [normalizeCrossCoef_core, hso] at h
   simp only at h
   have f1 : -(-(Ln : Int)) * (ab : Int) = ((Ln * ab : Nat) : Int) := by push_cast; ring
@@ -163,12 +192,15 @@ theorem normalizeCrossCoef_value_N (c : CrossCtx bits ab rb rs lsh H a) (off : I
       have e6 : rs * rb / rb = rs := Nat.mul_div_cancel rs (by omega)
       rw [e4, e5, e6, if_neg (by omega)] at h
       obtain ⟨h1, h2, h3, h4⟩ := crossCore_N1 c Ln p (Ln * ab - rs * rb) _ _ _ hp (by omega) h
-      refine ⟨h1, h2, h3, fun hle => h4 ?_ (by omega)⟩
-      have : a.length * ab = 0 := by
+      refine ⟨h1, h2, h3, fun hle => h4 ?_⟩
+      have : a.length * ab < ab := by
         have : ab * a.length = a.length * ab := Nat.mul_comm _ _
         omega
       have : a.length = 0 := by
-        rcases Nat.mul_eq_zero.mp this with h | h <;> omega
+        by_contra hne
+        have : ab * 1 ≤ ab * a.length := Nat.mul_le_mul_left ab (by omega)
+        have : ab * a.length = a.length * ab := Nat.mul_comm _ _
+        omega
       exact List.eq_nil_of_length_eq_zero this
     · have hlt : Ln * ab < rs * rb := by omega
       have e1 : min (Ln * ab) (rs * rb) = Ln * ab := by omega
@@ -222,14 +254,13 @@ theorem CrossCtx.with_lsh {bits ab rb rs lsh l' : Nat} {H : Int} {a : List Int}
 
 /-- **value theorem of the cross-radix `vec_znx_normalize` / `vec_znx_big_normalize`, every offset**:
 `rs` limbs with `|d| ≤ 2^rb − 1`, representing `a·2^off` on the torus within one unit of the last
-limb; exact when the shifted input needs no more bits than the result has, counted in whole limbs of
-`a` (`ab·a_size ≤ rb·rs + limbs_offset·ab`). -/
+limb; exact when the shifted input needs no more bits than the result has (`ab·a_size − off ≤ rb·rs`). -/
 theorem normalizeCrossCoef_value {bits ab rb rs : Nat} {H : Int} {a : List Int}
     (c : CrossCtx bits ab rb rs 0 H a) (off : Int) {out : List Int}
     (h : normalizeCrossCoef bits rb rs off ab a = some out) :
     out.length = rs ∧ (∀ d ∈ out, |d| ≤ 2 ^ rb - 1) ∧
     TorusNear (valI rb out) (rb * rs) (valI ab a * 2 ^ off.toNat) (ab * a.length + (-off).toNat) ∧
-    (((ab * a.length : Nat) : Int) ≤ ((rb * rs : Nat) : Int) + (splitOffset ab off).2 * ab →
+    (((ab * a.length : Nat) : Int) - off ≤ ((rb * rs : Nat) : Int) →
       TorusEq (valI rb out) (rb * rs) (valI ab a * 2 ^ off.toNat) (ab * a.length + (-off).toNat)) := by
   have hab1 : 1 ≤ ab := by have := c.hlsh; omega
   obtain ⟨hoff, hl⟩ := splitOffset_spec hab1 off
@@ -245,8 +276,9 @@ theorem normalizeCrossCoef_value {bits ab rb rs : Nat} {H : Int} {a : List Int}
     obtain ⟨h1, h2, h3, h4⟩ := normalizeCrossCoef_value_P cl off L hso h
     rw [e1, e2, Nat.add_zero]
     refine ⟨h1, h2, h3, fun hle => h4 ?_⟩
-    rw [hLab] at hle
-    exact_mod_cast hle
+    rw [hoff, hLab] at hle
+    have h5 : ((ab * a.length : Nat) : Int) ≤ ((rb * rs : Nat) : Int) + ((L * ab : Nat) : Int) + (lsh : Int) := by linarith
+    exact_mod_cast h5
   · obtain ⟨Ln, rfl⟩ := Int.exists_eq_neg_ofNat (le_of_lt hlo)
     have hLn1 : 1 ≤ Ln := by omega
     have hLab : (Ln : Int) * (ab : Int) = ((Ln * ab : Nat) : Int) := by push_cast; ring
@@ -260,9 +292,8 @@ theorem normalizeCrossCoef_value {bits ab rb rs : Nat} {H : Int} {a : List Int}
     obtain ⟨h1, h2, h3, h4⟩ := normalizeCrossCoef_value_N cl off Ln (Ln * ab - lsh) hLn1 hso (by omega) h
     rw [e1, e2, pow_zero, mul_one]
     refine ⟨h1, h2, h3, fun hle => h4 ?_⟩
-    have : -(Ln : Int) * (ab : Int) = -((Ln * ab : Nat) : Int) := by push_cast; ring
-    rw [this] at hle
-    have h5 : ((ab * a.length : Nat) : Int) + ((Ln * ab : Nat) : Int) ≤ ((rb * rs : Nat) : Int) := by linarith
+    rw [hoff'] at hle
+    have h5 : ((ab * a.length : Nat) : Int) + ((Ln * ab : Nat) : Int) ≤ ((rb * rs : Nat) : Int) + (lsh : Int) := by linarith
     exact_mod_cast h5
 
 end NormL
